@@ -4,13 +4,13 @@ namespace Yaclib.Coro
 
 macro "invA_auto" : tactic =>
   `(tactic| (constructor <;> (simp only [doStart, regFrom, afterReg, doReady, doMReady, regFail, doRegLoad, doCasOk, doMsub, doMsuspend,
-      doTstore, doFire, doSubmit, doDrop, doResume, doCurrent, doLdtor, doRet, doPublish, doFdtor, State.setWord] at *) <;>
+      doTstore, doFire, doSubmit, doDrop, doResume, doCurrent, doLdtor, doRet, doPublish, doFdtor, doTdtor, State.setWord] at *) <;>
       grind [inOp, pcKindOk, emptyBased, isMulti, execOk, ctxOk, ownKind, pcExec, ctxOk_of_execOk, List.length_set, List.length_replicate, drop_succ_of_cons]))
 
 set_option maxHeartbeats 4000000 in
 theorem invA_step_env {w s l s'} (ha : InvA w s) (hs : Step s l s')
     (hl : match l with | .pXchg _ | .envPush _ | .envSwap _ _ | .exCall | .exDrop | .ldtor | .ret | .publish _ | .fdtor
-                       | .rdLoad _ | .mload _ | .submit _ | .current _ => True | _ => False) : InvA w s' := by
+                       | .rdLoad _ | .mload _ | .submit _ | .current _ | .tdtor _ => True | _ => False) : InvA w s' := by
   cases ha
   cases hs with
   | pXchg j l f hw hl => invA_auto
@@ -26,6 +26,7 @@ theorem invA_step_env {w s l s'} (ha : InvA w s) (hs : Step s l s')
   | mload v h hv => invA_auto
   | submit e h => invA_auto
   | current op rest h ht => invA_auto
+  | tdtor j h hl hr => invA_auto
   | _ => simp at hl
 
 end Yaclib.Coro
